@@ -242,7 +242,7 @@ Ltac run4 :=
   cbv beta iota zeta delta [rep rep_zone tdate ttod tzone zh zm with_tod with_date cal3
     add_seconds_raw add_minutes_raw add_hours_raw add_days_raw
     f_digits f_tprop f_tdump f_dump
-    ebind need is_none negb andb truthy_opt
+    ebind need is_none negb andb orb truthy_opt
     py_TimePoint_get_is_calendar_date py_TimePoint_get_is_ordinal_date py_TimePoint_get_is_week_date
     s_num_expanded_year_digits s_year s_month_of_year s_day_of_year s_day_of_month s_day_of_week
     s_week_of_year s_hour_of_day s_minute_of_hour s_second_of_minute s_truncated s_truncated_property
